@@ -112,6 +112,13 @@ def select(ctx, scheds, max_cover):
     """all violating schedules + a seeded sample of the cover (shortest first is kept for half of it)"""
     find = [s for s in scheds if s["kind"] == "finding"]
     cover = [s for s in scheds if s["kind"] == "cover"]
+    # a schedule that is a proper prefix of another one adds nothing: the longer run passes through it
+    keys = [tuple(json.dumps(st, sort_keys=True) for st in s["sched"]) for s in cover]
+    prefixes = set()
+    for k in keys:
+        for i in range(1, len(k)):
+            prefixes.add(k[:i])
+    cover = [s for s, k in zip(cover, keys) if k not in prefixes]
     if len(cover) > max_cover:
         cover.sort(key=lambda s: (len(s["sched"]), json.dumps(s["sched"])))
         head = cover[: max_cover // 2]
